@@ -275,7 +275,26 @@ class MountFS(FS):
         # type: (...) -> Iterator[Info]
         self.check()
         fs, _path = self._delegate(path)
-        return fs.scandir(_path, namespaces=namespaces, page=page)
+        iter_info = fs.scandir(_path, namespaces=namespaces, page=page)
+        if fs is not self.default_fs or not self.mounts:
+            return iter_info
+        return self._scan_mount_points(path, iter_info, namespaces)
+
+    def _scan_mount_points(
+        self,
+        path,  # type: Text
+        iter_info,  # type: Iterator[Info]
+        namespaces,  # type: Optional[Collection[Text]]
+    ):
+        # type: (...) -> Iterator[Info]
+        """Report the mount points in a directory as `getinfo` reports them."""
+        _dir_path = forcedir(abspath(normpath(path)))
+        mount_paths = set(mount_path for mount_path, _fs in self.mounts)
+        for info in iter_info:
+            if info.is_dir and forcedir(_dir_path + info.name) in mount_paths:
+                yield self.getinfo(_dir_path + info.name, namespaces=namespaces)
+            else:
+                yield info
 
     def setinfo(self, path, info):
         # type: (Text, RawInfo) -> None
